@@ -529,7 +529,7 @@ def g_titled(s, kws, ctx, dialect, has_tags=True, p_desc=0.4):
     return t
 
 
-CELL_UNITS = ["\ufdd2", "\uf8ff", "\uf8fe", "\ue000", "\uffff", "\x01", "\x1f", "\x7f", "\U0010ffff", "\U000f0000", "\ufdd0\ufdd0", "\ufdd0\ufdd1", "\ufdd0", "\u202a", "\u202e", "\u202c", "\u200f", "#", "#12", "@t", "x", "a", " ", "<a>", "<b>", "\\|", "\\\\", "\\n", "\\x", "é", "\U0001F600", "\xa0", "\t", "1", "$", ".", "\\ "]
+CELL_UNITS = ["-", "---", ":-:", "--:", ":--", "- -", "=", "===", "+", "*", "1.", ">", "~~~", "***", "___", "[x]", "\ufdd2", "\uf8ff", "\uf8fe", "\ue000", "\uffff", "\x01", "\x1f", "\x7f", "\U0010ffff", "\U000f0000", "\ufdd0\ufdd0", "\ufdd0\ufdd1", "\ufdd0", "\u202a", "\u202e", "\u202c", "\u200f", "#", "#12", "@t", "x", "a", " ", "<a>", "<b>", "\\|", "\\\\", "\\n", "\\x", "é", "\U0001F600", "\xa0", "\t", "1", "$", ".", "\\ "]
 
 
 def g_cell(s):
